@@ -304,13 +304,13 @@ theorem member_chars (ms : List Str) (hok : ms.all memberOk = true) (m : Str) (h
   exact List.all_eq_true.mp this.2 c hc
 
 /-- a rendered type of the domain contains neither a backtick nor a newline -/
-theorem render_safe (t : Typ) (hok : t.ok = true) : '`' ∉ t.render ∧ '\n' ∉ t.render := by
+theorem render_safe (t : Typ) (hok : t.okRet = true) : '`' ∉ t.render ∧ '\n' ∉ t.render := by
   constructor <;> intro h <;> rcases mem_render t _ h with h | ⟨ms, hms, m, hm, hc⟩
   · revert h; decide
-  · simp only [Typ.ok, hms, Bool.and_eq_true] at hok
+  · simp only [Typ.okRet, hms, Bool.and_eq_true] at hok
     exact (wordChar_ne _ (member_chars ms hok.2 m hm _ hc)).1 rfl
   · revert h; decide
-  · simp only [Typ.ok, hms, Bool.and_eq_true] at hok
+  · simp only [Typ.okRet, hms, Bool.and_eq_true] at hok
     exact (wordChar_ne _ (member_chars ms hok.2 m hm _ hc)).2.1 rfl
 
 /-! ### the description: `parseDesc (emitDesc doc ret) = (doc, ret)` on the trigger-free domain -/
@@ -373,7 +373,7 @@ def expectedRet (r : Ret) : PRet := { typ := some r.typ.render, doc := r.doc }
 
 def rtypeLine (r : Ret) : Str := js!":rtype: ```" ++ r.typ.render ++ js!"```"
 
-theorem rtypeLine_no_nl (r : Ret) (h : r.typ.ok = true) : '\n' ∉ rtypeLine r := by
+theorem rtypeLine_no_nl (r : Ret) (h : r.typ.okRet = true) : '\n' ∉ rtypeLine r := by
   have := (render_safe r.typ h).2
   simp [rtypeLine, this]
 
@@ -573,27 +573,51 @@ theorem join_ne_nil (sep : Str) (l : List Str) (hne : l ≠ []) (h : ∀ x ∈ l
     | nil => simpa [join] using hx
     | cons y ys => simp [join, hx]
 
-theorem literalOf_facts (ms : List Str) (h : ∀ m ∈ ms, ∀ c ∈ m, wordChar c = true) :
-    (literalOf ms).isEmpty = false ∧ Py.contains (literalOf ms) js!"Optional[" = false := by
-  constructor
-  · simp [literalOf]
-  · have hrest : '[' ∉ join js!", " (ms.map quote) ++ js!"]" := by
-      intro hm
-      simp only [List.mem_append] at hm
-      rcases hm with hm | hm
-      · rcases mem_join _ _ _ hm with hc | ⟨q, hq, hcq⟩
+/-- members without `[` cannot make the rebuilt `Literal[...]` string contain `Optional[` (a sufficient condition for
+    the last conjunct of `Typ.ok`) -/
+theorem literalOf_facts (ms : List Str) (h : ∀ m ∈ ms, '[' ∉ m) :
+    Py.contains (literalOf ms) js!"Optional[" = false := by
+  have hrest : '[' ∉ join js!", " (ms.map quote) ++ js!"]" := by
+    intro hm
+    simp only [List.mem_append] at hm
+    rcases hm with hm | hm
+    · rcases mem_join _ _ _ hm with hc | ⟨q, hq, hcq⟩
+      · revert hc; decide
+      · obtain ⟨m, hm', rfl⟩ := List.mem_map.mp hq
+        simp only [quote, List.mem_cons, List.mem_append, List.not_mem_nil, or_false] at hcq
+        rcases hcq with hc | hc | hc
         · revert hc; decide
-        · obtain ⟨m, hm', rfl⟩ := List.mem_map.mp hq
-          simp only [quote, List.mem_cons, List.mem_append, List.not_mem_nil, or_false] at hcq
-          rcases hcq with hc | hc | hc
-          · revert hc; decide
-          · exact (wordChar_ne _ (h m hm' _ hc)).2.2.2 rfl
-          · revert hc; decide
-      · revert hm; decide
-    have := not_contains_of_missing_char _ js!"Optional[" '[' (by decide) hrest
-    simp only [literalOf, List.append_assoc]
-    simp [Py.contains, List.isPrefixOf_cons_cons]
-    simpa [List.append_assoc] using this
+        · exact h m hm' hc
+        · revert hc; decide
+    · revert hm; decide
+  have := not_contains_of_missing_char _ js!"Optional[" '[' (by decide) hrest
+  simp only [literalOf, List.append_assoc]
+  simp [Py.contains, List.isPrefixOf_cons_cons]
+  simpa [List.append_assoc] using this
+
+theorem insertSorted_length (x : Str) (l : List Str) : (insertSorted x l).length = l.length + 1 := by
+  induction l with
+  | nil => rfl
+  | cons y ys ih => simp only [insertSorted]; split <;> simp [ih]
+
+theorem sortStrs_length (l : List Str) : (sortStrs l).length = l.length := by
+  induction l with
+  | nil => rfl
+  | cons x xs ih => simp [sortStrs, insertSorted_length, ih]
+
+/-- the emitted pattern is non-empty (truthy) unless the only member is the empty string -/
+theorem patternOf_ne_nil (ms : List Str) (hne : ms ≠ []) (h1 : ms ≠ [[]]) : (patternOf ms).isEmpty = false := by
+  match ms, hne, h1 with
+  | [x], _, h1 =>
+    have : x ≠ [] := fun e => h1 (by rw [e])
+    simpa [patternOf, sortStrs, insertSorted, join] using this
+  | x :: y :: rest, _, _ =>
+    have hl := sortStrs_length (x :: y :: rest)
+    unfold patternOf
+    match hs : sortStrs (x :: y :: rest) with
+    | [] => rw [hs] at hl; simp at hl
+    | [a] => rw [hs] at hl; simp at hl
+    | a :: b :: r => simp [join]
 
 theorem parseProp_emitProp (required : List Str) (name : Str) (p : Param) (hok : p.typ.ok = true)
     (hreq : required.contains name = !p.typ.optional) :
@@ -608,25 +632,21 @@ theorem parseProp_emitProp (required : List Str) (name : Str) (p : Param) (hok :
     simp only [expectedParam, typAfterPattern, wrapOpt, hreq, normTyp, hc, Typ.render, Core.render]
     cases p.typ.optional <;> simp [h3, h4]
   | lit ms =>
-    simp only [Typ.ok, hc, Bool.and_eq_true] at hok
-    have hmem : ∀ m ∈ sortStrs ms, ∀ c ∈ m, wordChar c = true :=
-      fun m hm c hcm => member_chars ms hok.2 m ((mem_sortStrs m ms).mp hm) c hcm
-    have hne : sortStrs ms ≠ [] := by
-      intro e; have := (sortStrs_eq_nil ms).mp e; simp [this] at hok
-    have hnobar : ∀ m ∈ sortStrs ms, '|' ∉ m := fun m hm hbar => (wordChar_ne _ (hmem m hm _ hbar)).2.2.1 rfl
-    have hnonempty : ∀ m ∈ sortStrs ms, m ≠ [] := by
-      intro m hm e
-      have := List.all_eq_true.mp hok.2 m ((mem_sortStrs m ms).mp hm)
-      simp [memberOk, e] at this
-    have hpatne : (patternOf ms).isEmpty = false := by
-      have := join_ne_nil ['|'] (sortStrs ms) hne hnonempty
-      simpa [patternOf] using this
+    simp only [Typ.ok, hc, Bool.and_eq_true, Bool.not_eq_true', decide_eq_true_eq] at hok
+    obtain ⟨⟨⟨hne0, hwide⟩, hnot1⟩, h4⟩ := hok
+    have hms : ms ≠ [] := by intro e; simp [e] at hne0
+    have hne : sortStrs ms ≠ [] := fun e => hms ((sortStrs_eq_nil ms).mp e)
+    have hnobar : ∀ m ∈ sortStrs ms, '|' ∉ m := by
+      intro m hm hbar
+      have := List.all_eq_true.mp (List.all_eq_true.mp hwide m ((mem_sortStrs m ms).mp hm)) _ hbar
+      revert this; decide
+    have hpatne : (patternOf ms).isEmpty = false := patternOf_ne_nil ms hms hnot1
     have het : emitType p.typ = (jsonTypeOf js!"str", some (patternOf ms)) := by simp [emitType, hc]
     have hs1 : (jsonTypeOf js!"str").isEmpty = false := by decide
     have hs2 : lookup (jsonTypeOf js!"str") jsonType2typ = some js!"str" := by decide
     rw [het, parseProp_propKvs required name _ _ (jsonTypeOf js!"str") js!"str" (some (patternOf ms)) hs1 hs2
       (by intro s hs; cases hs; exact hpatne), normDefault_emitted]
-    obtain ⟨h3, h4⟩ := literalOf_facts (sortStrs ms) hmem
+    have h3 : (literalOf (sortStrs ms)).isEmpty = false := by simp [literalOf]
     simp only [expectedParam, typAfterPattern, patternOf, splitBar_join _ hne hnobar, wrapOpt, hreq, normTyp, hc,
       Typ.render, Core.render]
     have hlit : js!"Literal[" ++ join js!", " ((sortStrs ms).map quote) ++ js!"]" = literalOf (sortStrs ms) := rfl
@@ -786,20 +806,16 @@ theorem validKvs_propKvs (dflt : Option J) (doc : Option Str) (ty : Str) (pat : 
       rw [validKvs.eq_2, validKw_of_ne_properties _ _ (by decide)]; simp [kwCheck, validKvs, patternOk]; exact this
   simp only [propKvs, validKvs_append, h1, h2, h3, h4, Bool.and_self]
 
-theorem patternOf_patChars (ms : List Str) (h : ms.all memberOk = true) : (patternOf ms).all patChar = true := by
+theorem patternOf_patChars (ms : List Str) (h : ms.all (fun m => m.all plainChar) = true) :
+    (patternOf ms).all patChar = true := by
   simp only [List.all_eq_true, patternOf]
   intro c hc
   rcases mem_join _ _ _ hc with hc | ⟨m, hm, hcm⟩
   · simp at hc; subst hc; decide
-  · have := member_chars ms h m ((mem_sortStrs m ms).mp hm) c hcm
-    simp only [wordChar, Bool.or_eq_true] at this
-    simp only [patChar, Bool.or_eq_true]
-    rcases this with (h | h) | h
-    · exact Or.inl (Or.inl (Or.inl (Or.inl h)))
-    · exact Or.inl (Or.inl (Or.inl (Or.inr h)))
-    · exact Or.inl (Or.inl (Or.inr h))
+  · have := List.all_eq_true.mp (List.all_eq_true.mp h m ((mem_sortStrs m ms).mp hm)) c hcm
+    simp [patChar, this]
 
-theorem validSchema_emitProp (p : Param) (hok : p.typ.ok = true) : validSchema (emitProp p).1 = true := by
+theorem validSchema_emitProp (p : Param) (hpl : p.typ.plain = true) : validSchema (emitProp p).1 = true := by
   rw [emitProp_eq]
   simp only [validSchema]
   apply validKvs_propKvs
@@ -812,17 +828,17 @@ theorem validSchema_emitProp (p : Param) (hok : p.typ.ok = true) : validSchema (
     | lit ms =>
       simp only [emitType, hc, Option.some.injEq] at hs
       subst hs
-      simp only [Typ.ok, hc, Bool.and_eq_true] at hok
-      exact patternOf_patChars ms hok.2
+      simp only [Typ.plain, hc] at hpl
+      exact patternOf_patChars ms hpl
 
-theorem validProps_emitProps (ps : List (Str × Param)) (hok : ∀ np ∈ ps, np.2.typ.ok = true) :
+theorem validProps_emitProps (ps : List (Str × Param)) (hpl : ∀ np ∈ ps, np.2.typ.plain = true) :
     validProps (emitProps ps) = true := by
   induction ps with
   | nil => rfl
   | cons x xs ih =>
-    have := ih (fun np h => hok np (by simp [h]))
+    have := ih (fun np h => hpl np (by simp [h]))
     simp only [emitProps, List.map_cons] at this ⊢
-    simp [validProps, validSchema_emitProp x.2 (hok x (by simp)), this]
+    simp [validProps, validSchema_emitProp x.2 (hpl x (by simp)), this]
 
 theorem identChar_ne_hash (c : Char) (h : identChar c = true) : c ≠ '#' := by
   intro e; subst e; revert h; decide
@@ -853,10 +869,13 @@ theorem IR.ok_name (ir : IR) (h : ir.ok = true) : ∀ n, ir.name = some n → n.
   simp only [IR.ok, Bool.and_eq_true, hn] at h
   exact h.1.1.1
 
-theorem validSchema_emitT (ir : IR) (hok : ir.ok = true) (hnd : (ir.params.map (·.1)).Nodup) :
+theorem IR.plain_params (ir : IR) (h : ir.plain = true) : ∀ np ∈ ir.params, np.2.typ.plain = true :=
+  fun np hnp => List.all_eq_true.mp h np hnp
+
+theorem validSchema_emitT (ir : IR) (hok : ir.ok = true) (hpl : ir.plain = true) (hnd : (ir.params.map (·.1)).Nodup) :
     validSchema (emitT ir) = true := by
   have h1 := idOk_idOf ir.name (IR.ok_name ir hok)
-  have h2 := validProps_emitProps ir.params (IR.ok_params ir hok)
+  have h2 := validProps_emitProps ir.params (IR.plain_params ir hpl)
   have h3 := uniqueStrs_of_nodup _ (emitRequired_nodup ir.params hnd)
   simp only [emitT, validSchema]
   rw [validKvs.eq_2, validKvs.eq_2, validKvs.eq_2, validKvs.eq_2, validKvs.eq_2, validKvs.eq_2, validKvs.eq_1,
@@ -869,17 +888,20 @@ theorem validSchema_emitT (ir : IR) (hok : ir.ok = true) (hnd : (ir.params.map (
 /-! ### patterns and defaults -/
 
 /-- what the emitted pattern accepts (`re.search`): exactly the strings that *contain* a member -/
-theorem patAccepts_patternOf (ms : List Str) (hne : ms ≠ []) (hok : ms.all memberOk = true) (s : Str) :
+theorem patAccepts_patternOf (ms : List Str) (hne : ms ≠ []) (hok : ms.all (fun m => m.all plainChar) = true) (s : Str) :
     patAccepts (patternOf ms) s = true ↔ ∃ m ∈ ms, isInfix m s = true := by
   have hne' : sortStrs ms ≠ [] := fun e => hne ((sortStrs_eq_nil ms).mp e)
-  have hnobar : ∀ m ∈ sortStrs ms, '|' ∉ m := fun m hm hbar =>
-    (wordChar_ne _ (member_chars ms hok m ((mem_sortStrs m ms).mp hm) _ hbar)).2.2.1 rfl
+  have hnobar : ∀ m ∈ sortStrs ms, '|' ∉ m := by
+    intro m hm hbar
+    have := List.all_eq_true.mp (List.all_eq_true.mp hok m ((mem_sortStrs m ms).mp hm)) _ hbar
+    revert this; decide
   simp only [patAccepts, patternOf, splitBar_join _ hne' hnobar, List.any_eq_true]
   constructor
   · rintro ⟨m, hm, h⟩; exact ⟨m, (mem_sortStrs m ms).mp hm, h⟩
   · rintro ⟨m, hm, h⟩; exact ⟨m, (mem_sortStrs m ms).mpr hm, h⟩
 
-theorem validates_default (p : Param) (hok : paramOk p = true) (d : J) (hd : emittedDefault p = some d) :
+theorem validates_default (p : Param) (hok : paramOk p = true) (hpl : p.typ.plain = true) (d : J)
+    (hd : emittedDefault p = some d) :
     validates (emitProp p).1 d = true := by
   simp only [paramOk, Bool.and_eq_true] at hok
   obtain ⟨htyp, hdef⟩ := hok
@@ -928,9 +950,9 @@ theorem validates_default (p : Param) (hok : paramOk p = true) (d : J) (hd : emi
           | base b => simp [hcore] at hc
           | lit ms =>
             simp only [hcore] at hc
-            simp only [Typ.ok, hcore, Bool.and_eq_true] at htyp
-            have hne : ms ≠ [] := by intro e; simp [e] at htyp
-            have hacc := (patAccepts_patternOf ms hne htyp.2 s).mpr
+            simp only [Typ.plain, hcore] at hpl
+            have hne : ms ≠ [] := by intro e; simp [e] at hc
+            have hacc := (patAccepts_patternOf ms hne hpl s).mpr
               ⟨s, List.contains_iff_mem.mp hc, contains_self s⟩
             simp [emitType, hcore, e2, typeAccepts, J.isStr, hacc]
 
